@@ -17,3 +17,168 @@ TABLE = [
  ("U_BAD",    "def test_x(f:\n"),
  ("U_NONE",   "x = 1\n"),
 ]
+
+# ---------------------------------------------------------------------------------------------------
+# C03 / C15 / C17 documents (analysed once each; expectations are written by hand in h_records.rs from the
+# documented pytest forms, NOT generated from the analyzer)
+TABLE += [
+ ("D_SPELLINGS", """import pytest, pytest_asyncio
+from pytest import fixture
+@pytest.fixture
+def a(): return 1
+@pytest.fixture()
+def b(a): return a
+@fixture
+def c(): return 1
+@fixture(scope="module", autouse=True)
+def d(): return 1
+@pytest_asyncio.fixture
+async def e(d, c): return 1
+@pytest.fixture(name="g")
+def f_impl(request): return 1
+"""),
+ ("D_NOT_FIXTURES", """import pytest
+def helper(a): return a
+class Plain:
+    def method(self, a): return a
+def outer():
+    @pytest.fixture
+    def inner(): return 1
+    return inner
+X = "@pytest.fixture def s(): pass"
+# @pytest.fixture
+def test_t(a): pass
+"""),
+ ("D_CLASS", """import pytest
+class TestK:
+    @pytest.fixture
+    def k(self): return 1
+    def test_m(self, k): pass
+@pytest.mark.usefixtures("k")
+class TestL:
+    def test_n(self): pass
+"""),
+ ("D_YIELD", """import pytest
+@pytest.fixture
+def y1():
+    if True:
+        yield 0
+        return
+    yield 1
+@pytest.fixture
+def y2() -> int:
+    return 1
+@pytest.fixture
+def y3() -> Generator[int, None, None]:
+    with open("x") as h:
+        yield h
+"""),
+ ("D_DOC", '''import pytest
+@pytest.fixture
+def doc():
+    """First line.
+
+    Body line one.
+  
+    Body line two.
+    """
+    return 1
+'''),
+ ("D_ASSIGN", """import pytest
+def _impl(): return 1
+h = pytest.fixture()(_impl)
+pytestmark = [pytest.mark.usefixtures("h"), pytest.mark.skip]
+@pytest.mark.parametrize("h", [1], indirect=True)
+def test_p(h): pass
+"""),
+ ("D_ANNOT", """import pytest
+@pytest.fixture
+def r1() -> dict[str, int]: return {}
+@pytest.fixture
+def r2() -> a.B | None: return None
+@pytest.fixture
+def r3(x: int = 3, *, y: str) -> "T": return 1
+"""),
+ ("D_ASYNC_GEN", """import pytest
+@pytest.fixture
+async def ag() -> AsyncIterator[int]:
+    async with cm() as c:
+        yield c
+"""),
+]
+
+# ---- C17: undeclared-fixture scan. Conftest of /a defines fa, fb, fm, fl; the sibling conftest defines fs and fb.
+TABLE += [
+ ("D_U_CONF", """import pytest
+@pytest.fixture
+def fa(): return 1
+@pytest.fixture
+def fb(): return 1
+@pytest.fixture
+def fm(): return 1
+@pytest.fixture
+def fl(): return 1
+"""),
+ ("D_U_SIB", """import pytest
+@pytest.fixture
+def fs(): return 1
+@pytest.fixture
+def fb(): return 2
+"""),
+ ("D_U_TEST", """fm = 1
+def test_u(fa):
+    fa.x
+    fb()
+    g(fb)
+    fb.attr
+    y = fb + 1
+    fb[0]
+    [fb, 1]
+    fs
+    zz
+    fm
+    fl = 2
+    fl
+"""),
+ # ---- C15: positions. Non-ASCII text before a token; string-literal forms in usefixtures.
+ ("D_POS_UTF16", """import pytest
+@pytest.mark.usefixtures("\u00e9", "fa")
+def test_p(): pass
+@pytest.mark.usefixtures("\U0001F600", "fb")
+def test_q(): pass
+"""),
+ ("D_POS_LITERALS", """import pytest
+@pytest.mark.usefixtures(r"fa", '''fb''', "fc")
+def test_r(): pass
+"""),
+]
+
+# ---- C18: completion context per cursor line
+TABLE += [
+ ("D_COMPLETION", """import pytest
+
+@pytest.fixture(scope="module")
+def fx(a,
+       b):
+    x = 1
+    return x
+
+def helper(q):
+    pass
+
+@pytest.mark.usefixtures("fx")
+def test_x(fx):  # c
+    y = 1
+    for i in fx:
+        pass
+class TestK:
+    def test_m(self, fx):
+        pass
+"""),
+ # incomplete forms produced while typing a signature (unparsable -> text fallback)
+ ("D_COMMENT_COLON", "def test_x(fx):  # c\n    for i in fx:\n        pass\n"),
+ ("D_TYPING_OPEN", "import pytest\ndef test_x("),
+ ("D_TYPING_COMMA", "import pytest\n@pytest.fixture\ndef fy(a,"),
+ ("D_TYPING_USEFIX", "import pytest\n\n@pytest.mark.usefixtures("),
+ ("D_TYPING_HELPER", "import pytest\ndef helper("),
+]
